@@ -9,9 +9,13 @@
     `store_basin` (file basins unmapped/mapped, internal basins) and by
     `ds.export.hdf5(basins=True)` (filtered or not, from the file or from a hierarchy child or
     grandchild, with and without the observed features stored innately); every file of the chain
-    is read back with all access patterns, again after moving all files to another directory, and
-    after `rtdc_copy`; compared with the harness' own composition of the maps (property oracle)
-    and with the Lean model (`viaBasin`, `exportFile`);
+    is read back with all access patterns, after `rtdc_copy`, and again after relocation: either
+    all files moved together (strict), or — chains spread over directories with colliding file
+    names — a partial relocation (directories stay / move / go offline) with same-named decoy
+    files next to the remaining ones: whatever is still offered must be the origin's data at the
+    composed map, never other data (input class of the open finding F70 reported as known);
+    compared with the harness' own composition of the maps (property oracle) and with the Lean
+    model (`viaBasin`, `exportFile`);
 (D) lookup order of `__getitem__` (innate > temporary > internal > file basins).
 """
 import json
@@ -30,7 +34,9 @@ RULE = ("A: random (basin array, map, index) triples, scalar and 2-D features, m
         "non-trivial when the map is not the identity. B: store_basin histories of 3-13 calls over a "
         "pool of 2-12 maps incl. explicit names and pre-existing map features; non-trivial when a "
         "map is reused or the names are exhausted. C: chains of depth 1-4 mixing store_basin "
-        "referrers and exports (filtered/unfiltered x file/child/grandchild x feature subsets); "
+        "referrers and exports (filtered/unfiltered x file/child/grandchild x feature subsets), "
+        "half of them spread over 3 directories with colliding names and partially relocated "
+        "with decoys; "
         "non-trivial when at least one step maps or filters. distinct = distinct canonical cases.")
 TRUSTED_BASE = [
     "modelled, not verified: numpy fancy/boolean indexing, h5py dataset reads, HDF5 chunking "
@@ -70,9 +76,26 @@ def bits(mask):
 
 # --------------------------------------------------------------------------------- part A
 def rand_map(rng, n_o, kind=None):
-    kind = kind or rng.choice(["subset", "repeat", "perm", "ident", "empty", "any"])
+    kind = kind or rng.choice(["subset", "repeat", "perm", "ident", "empty", "any", "dense",
+                               "blockperm"])
     if n_o == 0 or kind == "empty":
         return []
+    if kind == "dense":
+        # sorted map with repeats and gaps over a short window (span close to the count)
+        k = rng.randint(1, min(n_o, 6))
+        a = rng.randint(0, n_o - k)
+        return sorted(rng.randint(a, a + k - 1) for _ in range(rng.randint(k, k + 2)))
+    if kind == "blockperm":
+        # permutation of a consecutive block, end points possibly in place
+        k = rng.randint(1, n_o)
+        a = rng.randint(0, n_o - k)
+        m = list(range(a, a + k))
+        if k > 3 and rng.random() < 0.5:
+            mid = m[1:-1]
+            rng.shuffle(mid)
+            return [m[0]] + mid + [m[-1]]
+        rng.shuffle(m)
+        return m
     if kind == "subset":
         return sorted(rng.sample(range(n_o), rng.randint(1, n_o)))
     if kind == "repeat":
@@ -271,7 +294,11 @@ class FileInfo:
         self.path = pathlib.Path(path)
         self.rid = rid
         self.show = {}        # feature -> expected token list of ds[feature]
+        self.innate = set()   # features stored in the file itself
+        self.ref = None       # the file this one was derived from (basin target)
+        self.path0 = self.path
         self.n = 0
+        self.offline = False
 
 
 def read_tokens(ds, feat, how="[:]"):
@@ -344,13 +371,27 @@ class Scenario:
         self.desc = []           # canonical description of the scenario (replay)
         self.small_chunks = small_chunks
         self.nontrivial = False
+        # half of the scenarios spread the chain over several directories with colliding names
+        self.spread = self.rng.random() < 0.5
+        self.pdirs = [self.dir / f"p{i}" for i in range(3)]
+        if self.spread:
+            for d in self.pdirs:
+                d.mkdir()
 
     def emit(self, line, expect=None):
         self.lines.append(line)
         self.expect.append(expect)
 
     def new_info(self, rid):
-        fi = FileInfo(len(self.files), self.dir / f"f{len(self.files)}.rtdc", rid)
+        if self.spread:
+            used = {f.path for f in self.files}
+            while True:
+                path = self.rng.choice(self.pdirs) / (self.rng.choice(["data", "m", "res"]) + ".rtdc")
+                if path not in used:
+                    break
+        else:
+            path = self.dir / f"f{len(self.files)}.rtdc"
+        fi = FileInfo(len(self.files), path, rid)
         self.files.append(fi)
         return fi
 
@@ -366,6 +407,7 @@ class Scenario:
         fi = self.new_info(f"rid{self.k}")
         gen.make_rtdc(fi.path, tokens, feats=feats, rid=fi.rid)
         fi.n = n
+        fi.innate = set(feats)
         self.emit(f"file {fi.fid}")
         for f in feats:
             fi.show[f] = list(tokens)
@@ -377,7 +419,7 @@ class Scenario:
     def store(self, ref, last=True):
         dclab = common.import_dclab()
         rng = self.rng
-        kind = rng.choice(["same", "subset", "repeat", "perm", "any"])
+        kind = rng.choice(["same", "subset", "repeat", "perm", "any", "dense", "blockperm"])
         if kind == "same":
             m = None
             idx = list(range(ref.n))
@@ -386,6 +428,7 @@ class Scenario:
             idx = m
             self.nontrivial = True
         fi = self.new_info(ref.rid if (m is None or rng.random() < 0.5) else ref.rid + "-st")
+        fi.ref = ref
         fi.n = len(idx)
         avail = sorted(ref.show)
         explicit = None
@@ -435,8 +478,10 @@ class Scenario:
             fi.show[f] = [ref.show[f][i] for i in idx]
         for f, toks in innate.items():
             fi.show[f] = list(toks)
+        fi.innate = set(innate)
         if internal is not None:
             fi.show[INTF] = [internal[0][i] for i in internal[1]]
+            fi.innate.add(INTF)         # stored in the file (group basin_events)
         self.desc.append(("store", ref.fid, kind, tuple(m or ()), tuple(explicit or ()),
                           tuple(sorted((f, tuple(t)) for f, t in innate.items())),
                           internal is not None))
@@ -449,6 +494,7 @@ class Scenario:
         levels = rng.choice([0, 0, 1, 1, 2])
         filtered = rng.random() < 0.6
         fi = self.new_info(None)
+        fi.ref = ref
         avail = sorted(ref.show)
         feats = [KEEP] if KEEP in ref.show else []
         cand = [f for f in avail if f not in (KEEP, "image")]
@@ -502,6 +548,7 @@ class Scenario:
             self.files.pop()
             return None, f"export raised {err!r}"[:200]
         fi.n = len(cur_idx)
+        fi.innate = set(feats)
         for f in avail:
             fi.show[f] = [ref.show[f][i] for i in cur_idx]
         try:
@@ -530,8 +577,10 @@ class Scenario:
         return out
 
     # ---- observation -----------------------------------------------------------------
-    def observe(self, fi, tag, path=None):
-        """returns list of (feat, problem) ; emits model `get` lines on first observation"""
+    def observe(self, fi, tag, path=None, tolerant=False):
+        """returns list of (feat, problem) ; emits model `get` lines on first observation.
+        `tolerant` (after a partial relocation): a feature that is not stored in the file itself
+        may have become unavailable, but whatever is offered must be the origin's data"""
         dclab = common.import_dclab()
         probs = []
         path = path or fi.path
@@ -558,11 +607,22 @@ class Scenario:
                         self.emit(f"get {fi.fid} {FID[f]}", "none")
                     continue
                 try:
+                    if tolerant and f not in fi.innate and not present:
+                        self.ctx.stat("C:reloc:unavailable")
+                        continue
                     got = read_tokens(ds, f)
+                except KeyError as e:
+                    got = common.err_class(e)
+                    if tolerant and f not in fi.innate:
+                        self.ctx.stat("C:reloc:unavailable")
+                        continue
+                    probs.append((f, f"ds[{f!r}][:] raised {e!r}"[:140]))
                 except Exception as e:  # noqa
                     got = common.err_class(e)
                     probs.append((f, f"ds[{f!r}][:] raised {e!r}"[:140]))
                 else:
+                    if tolerant:
+                        self.ctx.stat("C:reloc:served")
                     if got != want:
                         probs.append((f, f"[:] got {got[:14]} want {want[:14]}"))
                     else:
@@ -593,7 +653,7 @@ def run_scenario(ctx, k, spec=None):
         if small:
             writer.CHUNK_SIZE_BYTES = 40          # 5 float64 events per chunk
         cur = sc.origin()
-        depth = rng.randint(1, 4)
+        depth = rng.randint(2 if sc.spread else 1, 4)
         for step in range(depth):
             if rng.random() < 0.35:
                 cur = sc.store(cur, last=step == depth - 1)
@@ -631,6 +691,11 @@ def run_scenario(ctx, k, spec=None):
                     ctx.note(f"C07: rtdc_copy raised {e!r}"[:160])
             except Exception as e:  # noqa
                 ctx.note(f"C07: rtdc_copy raised {e!r}"[:160])
+        if sc.spread:
+            for f, p in relocate(ctx, sc):
+                problems.append((f, p))
+            shutil.rmtree(sc.dir, ignore_errors=True)
+            return sc, problems
         # all files moved together
         moved = sc.dir / "moved"
         moved.mkdir()
@@ -642,6 +707,102 @@ def run_scenario(ctx, k, spec=None):
         ctx.stat("C:moved")
     shutil.rmtree(sc.dir, ignore_errors=True)
     return sc, problems
+
+
+def relocate(ctx, sc):
+    """partial relocation: every directory of the scenario stays, is moved as a whole (absolute
+    paths to its files dangle, relative names keep working) or goes offline; then same-named
+    decoy files (other data; identifier prefix-related / equal / unrelated) are put next to the
+    remaining files under the base names of their dangling absolute basin paths.  Whatever a
+    remaining file still offers must be the origin's data at the composed map."""
+    import json as _json
+    import h5py
+    dclab = common.import_dclab()
+    rng = ctx.rng
+    probs = []
+    plan = {}
+    for d in sc.pdirs:
+        plan[d] = rng.choice(["stay", "move", "move", "offline"])
+    # at least one directory with a referrer remains
+    homes = sorted({f.path.parent for f in sc.files[1:]})
+    if homes and all(plan[h] == "offline" for h in homes):
+        plan[rng.choice(homes)] = "move"
+    newdir = {}
+    for i, d in enumerate(sc.pdirs):
+        if plan[d] == "stay":
+            newdir[d] = d
+        elif plan[d] == "move":
+            newdir[d] = sc.dir / "backup" / f"{d.name}_2024"
+            newdir[d].parent.mkdir(exist_ok=True)
+            os.rename(d, newdir[d])
+        else:
+            newdir[d] = sc.dir / f"offline_{d.name}"
+            os.rename(d, newdir[d])
+    for fi in sc.files:
+        old = fi.path.parent
+        fi.offline = plan[old] == "offline"
+        fi.path = newdir[old] / fi.path.name
+    ctx.stat("C:reloc:" + "".join(sorted(set(plan[h][0] for h in homes))))
+    # decoys
+    origin = sc.files[0]
+    for d in sc.pdirs:
+        if plan[d] == "offline":
+            continue
+        here = [fi for fi in sc.files if fi.path.parent == newdir[d]]
+        names = {fi.path.name for fi in here}
+        abs_names, rel_names = [], set()
+        for fi in here:
+            with h5py.File(fi.path, "r") as h5:
+                for key in h5.get("basins", []):
+                    bd = _json.loads(" ".join(x.decode() if isinstance(x, bytes) else x
+                                              for x in h5["basins"][key][:]))
+                    for pth in bd.get("paths", []):
+                        if os.path.isabs(pth):
+                            if not os.path.exists(pth):
+                                abs_names.append((os.path.basename(pth), fi))
+                        else:
+                            rel_names.add(pth)
+        for name, fi in abs_names:
+            if name in names or name in rel_names or rng.random() < 0.1:
+                continue
+            names.add(name)
+            rid = rng.choice([origin.rid, fi.rid, fi.rid, "Zunrelated"])
+            feats = [f for f in origin.show if f != "image"]
+            gen.make_rtdc(newdir[d] / name, [250 + j for j in range(30)], feats=feats, rid=rid)
+            ctx.stat("C:reloc:decoy")
+    # Known finding F70 (open): Export.hdf5 stores the bare file name of its source as a
+    # relative location; when the export was written into another directory, that name is looked
+    # up next to the *export*. A different file of the same measurement family that happens to
+    # have this name there is accepted (run identifiers are equal / prefix-related) once the
+    # absolute path dangles. Input class: some remaining file X derived from `ref` in another
+    # directory, `ref`'s absolute path unreachable, and a file named like `ref` next to X.
+    hazard = set()
+    for fi in sc.files[1:]:
+        if fi.offline or fi.ref is None:
+            continue
+        ref = fi.ref
+        if (ref.path0.parent != fi.path0.parent and not ref.path0.exists()
+                and (fi.path.parent / ref.path0.name).exists()
+                and ref.path0.name != fi.path.name):      # (its own name: harmless self reference)
+            hazard.add(fi.fid)
+    for fi in sc.files[1:]:           # a file derived from an affected file is affected as well
+        if fi.ref is not None and fi.ref.fid in hazard:
+            hazard.add(fi.fid)
+    known = []
+    for fi in sc.files[1:]:
+        if fi.offline:
+            continue
+        for f, p in sc.observe(fi, "reloc", tolerant=True):
+            item = (f"relocated-file{fi.fid}({fi.path.parent.name}/{fi.path.name}):{f}", p)
+            (known if fi.fid in hazard else probs).append(item)
+    if hazard:
+        ctx.stat("C:reloc:F70-input-class")
+    if known:
+        ctx.known("F70", "a same-named file of the same measurement next to an export is "
+                         "accepted for the relative basin location written for the export's "
+                         "source (other directory) once the absolute path dangles: "
+                         f"{known[0][0]} {known[0][1]}"[:300])
+    return probs
 
 
 def part_c(ctx):
